@@ -133,6 +133,13 @@ const std::vector<NameClass> &key_pool() {
         p.push_back({{W({'s', 0x10428})}});
         p.push_back({{U("'''"), }});
         p.push_back({{U("key:colon")}});
+        // canonically DISTINCT keys that are merely compatibility-equivalent (NFKC would merge them; table keys are compared under NFC)
+        p.push_back({{cat(U("x"), W({0xb2}))}});        // x + SUPERSCRIPT TWO
+        p.push_back({{U("x2")}});
+        p.push_back({{cat(W({0xfb01}), U("n"))}});      // LATIN SMALL LIGATURE FI + n
+        p.push_back({{U("fin")}});
+        p.push_back({{W({0xff21})}});                   // FULLWIDTH LATIN CAPITAL LETTER A
+        p.push_back({{U("A")}});
     }
     return p;
 }
@@ -498,5 +505,12 @@ MCif dump_cif(cif_tp *cif, const char *prefix) {
     if (pending) throw *pending;
     std::set<ustr> bc;
     for (auto &b : m.blocks) if (!bc.insert(b.code_norm).second) throw Violation(std::string(prefix) + ".invariant", "dup_block", strprintf("block code %s occurs twice", u8(b.code_orig).c_str()));
+    // every block that is enumerated can be looked up by the very code it reports (also the anonymous block and blocks with
+    // invalid codes that parser recovery creates: cif_get_block matches on the normalised form and does not validate)
+    for (auto &b : m.blocks) {
+        cif_block_tp *h = NULL; int q = cif_get_block(cif, UC(b.code_orig), &h);
+        if (h) cif_container_free(h);
+        if (q != CIF_OK) throw Violation(std::string(prefix) + ".invariant", strprintf("get_block:%s", rc_name(q)), strprintf("block %s is enumerated by cif_get_all_blocks but cif_get_block with that code returns %s", u8(b.code_orig).c_str(), rc_name(q)));
+    }
     return m;
 }
